@@ -256,6 +256,9 @@ Definition inline_wf (u : ufield) : bool :=
   | KInlineObject fs => forallb sfield_wf fs && nodup_bytes (sp_inline_scope false fs)
   | KInlineOneof fs => forallb sfield_wf fs && nodup_bytes (sp_inline_scope true fs)
   | KInlineEnum os => forallb name_ok os
+  (* inline schemas whose fields are again inline schemas / arrays / maps: modelled and tied to the
+     compiler (KInlineTree), NOT part of the formal quantifier - the acceptance theorems do not cover them *)
+  | KInlineTree _ _ => false
   | _ => true
   end.
 Definition ufield_wf (u : ufield) : bool :=
@@ -264,10 +267,16 @@ Definition ufield_wf (u : ufield) : bool :=
 (* the proto symbols the user's fields of ONE message stand for: the field ToSnake(name), the
    presence oneof "_<field>" of an optional singular field, the entry message <Camel>Entry of a map field,
    the inline type <Camel> of an inline field and the values of an inline enum *)
-Definition is_map_kind (u : ufield) : bool := match uf_kind u with KMap _ => true | _ => false end.
+(* `map:<type>`, or `map:object { .. }` / `map:oneof { .. }` / `map:enum { .. }` of an inline schema *)
+Definition is_inline_kind (u : ufield) : bool :=
+  match uf_kind u with
+  | KInlineObject _ => true | KInlineOneof _ => true | KInlineEnum _ => true | KInlineTree _ _ => true
+  | _ => false end.
+Definition is_map_kind (u : ufield) : bool :=
+  match uf_kind u with KMap _ => true | _ => is_inline_kind u && (uf_container u =? 2) end.
 (* only a singular field has a presence oneof: an optional array / map is a plain repeated field (fix d536c9b) *)
 Definition is_repeated_kind (u : ufield) : bool :=
-  match uf_kind u with KArray _ => true | KMap _ => true | _ => false end.
+  match uf_kind u with KArray _ => true | KMap _ => true | _ => is_inline_kind u && negb (uf_container u =? 0) end.
 Definition sp_presence (u : ufield) : bool := uf_optional u && negb (is_repeated_kind u).
 Definition sp_enum_value_name (prefix s : bytes) : bytes := if has_prefix prefix s then s else prefix ++ s.
 Definition sp_inline_enum_values (name : bytes) (opts : list bytes) : list bytes :=
@@ -282,6 +291,7 @@ Definition sp_inline_names (fs : list ufield) : list bytes :=
     | KInlineObject _ => [to_camel (uf_name u)]
     | KInlineOneof _ => [to_camel (uf_name u)]
     | KInlineEnum os => to_camel (uf_name u) :: sp_inline_enum_values (to_camel (uf_name u)) os
+    | KInlineTree k _ => to_camel (uf_name u) :: (if k =? 2 then sp_inline_enum_values (to_camel (uf_name u)) [] else [])
     | _ => [] end) fs.
 Definition sp_field_scope (fs : list ufield) : list bytes :=
   map (fun u => to_snake (uf_name u)) fs
@@ -319,6 +329,7 @@ Definition ref_ok (e : entity) (u : ufield) : bool :=
   | KMap i => item_ref_ok e i
   | KInlineObject fs => forallb (fun s => item_ref_ok e (sf_kind s)) fs
   | KInlineOneof fs => forallb (fun s => item_ref_ok e (sf_kind s)) fs
+  | KInlineTree _ _ => false      (* outside the formal quantifier, see inline_wf *)
   | _ => true
   end.
 
